@@ -8,6 +8,7 @@ import BqVerif.Proofs.CircPopQudit
 import BqVerif.Proofs.CircUnfold
 import BqVerif.Proofs.CircBatchUnfold
 import BqVerif.Proofs.CircRemoveAll
+import BqVerif.Proofs.CircSlice
 /-! # C05 — all views of a Circuit stay mutually consistent after every edit
 
 The views (`next/prev/front/rear/first_on/last_on`, counters, iteration) are *functions of the
@@ -269,5 +270,22 @@ example :
 theorem C05_inv_remove_all (c : Circ) (hinv : c.Inv) (pred : Op → Bool) :
     (c.removeAll pred).Inv ∧ (c.removeAll pred).radixes = c.radixes :=
   ⟨removeAll_inv c hinv pred, by rw [removeAll_eq c hinv pred]⟩
+
+/-- **get_slice returns a circuit satisfying the invariant** (and so does `batch_pop`, whose
+returned circuit is the same slice) -/
+theorem C05_inv_slice (c : Circ) (hinv : c.Inv) (pts : List (Int × Int)) (s : Circ)
+    (h : c.getSlice pts = .ok s) : s.Inv :=
+  getSlice_inv c hinv pts s h
+theorem C05_inv_batch_pop_result (c : Circ) (hinv : c.Inv) (pts : List (Int × Int)) (s : Circ)
+    (h : (c.batchPop pts).2 = .ok s) : s.Inv :=
+  getSlice_inv c hinv pts s (batchPop_returns_getSlice c pts ▸ h)
+
+-- non-vacuity
+example :
+    let c : Circ := ⟨[2, 3, 2], [[⟨1, [], [0], [2]⟩, ⟨3, [], [2], [2]⟩], [⟨6, [], [0, 1], [2, 3]⟩],
+      [⟨2, [], [0], [2]⟩, ⟨7, [], [2, 1], [2, 3]⟩]]⟩
+    c.invB = true ∧ c.getSlice [(-1, 1), (0, 2)] =
+      .ok ⟨[3, 2], [[⟨3, [], [1], [2]⟩], [⟨7, [], [1, 0], [2, 3]⟩]]⟩ ∧
+      (c.batchPop [(-1, 1), (0, 2)]).2 = c.getSlice [(-1, 1), (0, 2)] := by decide
 
 end BqVerif.C05
